@@ -19,7 +19,16 @@ VTK.  The file written by pewlib is read by the small independent reader `read_v
 ElementTree + appended raw blocks; pewlib has no VTK reader): impl.  model = the Lean reader `vtkParse` on
 the Lean rendering `vtkRender` plus the blocks found at the declared offsets, spec = `vtkMetaSpec` and
 `vtkBlockSpec`.  The Lean reader is also run on the real header text, and the whole Lean rendering
-(header text, appended words, closing text) is compared with the real file byte for byte."""
+(header text, appended bytes, closing text) is compared with the real file byte for byte; the Lean byte-level
+reader `readBlockBytes` reads the real appended bytes at the offsets the real header declares.
+
+Sessions.  Several calls in one FRESH process (a fork of a process that has imported pewlib and never called it):
+`textimage.save`, files put there by the harness (standing for another tool), `textimage.load` with its options
+(`delimiter=` one of ',', ';', tab or the default, `name=`), `vtk.save` (other spacings, element sets, shapes; the same
+path again).  The Lean side runs the mechanism `runSession` (a file system threaded through the calls) and the
+specification `sessionSpec` (every load answered from the last put at its path and its own options) on the same calls;
+each load the property speaks about (`Src.image?`) is judged against the image, each .vti file as above: whatever was
+called before must not matter."""
 import base64
 import json
 import math
@@ -40,7 +49,7 @@ NAN = tok(float("nan"))
 SPECIALS = [0.0, -0.0, float("inf"), float("-inf"), float("nan"), 5e-324, -5e-324, 2.2250738585072014e-308,
             2.225073858507201e-308, 1.7976931348623157e308, -1.7976931348623157e308, 1.0, -1.0, 0.1, 1 / 3,
             123456789.0, 1e22, 1e23, 9007199254740993.0, 0.30000000000000004, 4.35, 2.5e-5]
-NAME_ALPHABET = list("abcXYZ019 _-.:/") + list("&<>\"'") * 3 + ["µ", "é", "²", "λ", "&amp;", "&lt;", "&#38;", "]]>", "<!--"]
+NAME_ALPHABET = list("abcXYZ019 _-.:/") + list("&<>\"'") * 3 + ["µ", "é", "²", "λ", "日", "𝛼", "&amp;", "&lt;", "&#38;", "&#160;", "&quot;", "]]>", "<!--"]
 DELIMS = [",", ";", "\t"]
 
 
@@ -611,7 +620,8 @@ def spacing_object(case):
     if how == "np.float64":
         return tuple(np.float64(x) for x in sp)
     if how == "np.float32":
-        return tuple(np.float32(x) for x in sp)
+        with np.errstate(all="ignore"):  # out of float32's range: inf or 0.0, printed as such
+            return tuple(np.float32(x) for x in sp)
     if how == "ndarray":
         return np.array(sp, dtype=np.float64)
     raise BadCase(f"spacing_as {how!r}")
@@ -769,7 +779,8 @@ def gen_vtk_case(rng):
         names = names[:2]
         nf = len(names)
     size = int(np.prod(shape))
-    spacing = [rng.choice([1, 1.0, 0.5, 35.0, 1e-3, 2.5e-5, 1234.5678, rng.uniform(1e-6, 1e6)]) for _ in range(3)]
+    spacing = [rng.choice([1, 1.0, 0.5, 35.0, 1e-3, 2.5e-5, 1234.5678, rng.uniform(1e-6, 1e6), rng.uniform(1e-6, 1e6), 1e16, 1e22,
+                           123456789012345680.0, 5e-324, 1.7976931348623157e308, 1 / 3, 10 ** 20]) for _ in range(3)]
     case = {"kind": "vtk", "shape": shape, "names": names, "vals": [[gen_value(rng) for _ in range(size)] for _ in names],
             "spacing": spacing}
     layout = gen_layout(rng, nf)
@@ -932,7 +943,15 @@ class C16(Prop):
             "between), dtypes with explicit offsets and padding, in every memory order above; the file is read back by "
             "an independent VTI reader (every header field, origin and spacing included, against the Lean "
             "specification), its header text by the Lean reader, and the whole file is compared byte for byte with "
-            "the Lean rendering; non-trivial = boundary shape, special value, escaped name, several elements, mixed "
+            "the Lean rendering (header text, every appended byte, closing text), the appended bytes also by the Lean "
+            "byte-level reader; spacings as tuples, lists, NumPy scalars and arrays, extreme spacings, very long and "
+            "non-ASCII names, large images (to 11000 cells), paths given as str; text arrays also in the other byte "
+            "order and as unaligned field views, large images (one line of more than 64 KiB, 6000 values); SESSIONS "
+            "(16 % of the generated cases, 52 targeted): 2 - 8 calls in one fresh process - save, files of another "
+            "tool, load with delimiter ',' ';' tab or default and name=, vtk.save with other spacings / element sets / "
+            "shapes on the same or another path - every load judged against the Lean specification of the file it "
+            "reads (half of the text sessions: a load that names its delimiter before a default load), every .vti as "
+            "above; non-trivial = boundary shape, special value, escaped name, several elements, mixed "
             "delimiters, a foreign-file feature or a non-default memory layout; distinct by canonical case hash")
     trusted = ["'%.18g' printing followed by Python's float is the identity on finite float64, zeros and infinities and maps "
                "NaN to NaN, and float ignores spaces around a number (the model's opaque fmt/conv: `Clean.roundtrip`, "
@@ -940,7 +959,10 @@ class C16(Prop):
                "genfromtxt's loose converter is float with a NaN fallback (harness `pyfloat`, the model's total `conv`)",
                "savetxt and path.open('r') use the same text encoding, '\\n' is written as '\\n' (POSIX)",
                "xml.etree.ElementTree decodes the five predefined entities (the model's `unescape`)",
-               "the independent reader `read_vti` in harness/c16.py"]
+               "the independent reader `read_vti` in harness/c16.py",
+               "a float64's 8 bytes are its bit pattern, lowest byte first on a little-endian machine (the driver's `tokBytes`, "
+               "the model's opaque `enc`)",
+               "a fork of a process that imported pewlib and never called it is in the state of a fresh interpreter (sessions)"]
     assumptions = ["NaN payload and sign are not part of 'NaN preserved' in the text form",
                    "Spacing is checked to parse as three floats within 1e-6 relative of the requested spacing, no more",
                    "which element the VTK header names as active scalar is not compared (it has to be one of them)",
@@ -948,6 +970,14 @@ class C16(Prop):
                    "model's rendering only moves the case out of the theorem's reach (hypothesis_excluded), the "
                    "loader model then reads that file",
                    "warnings and exception classes of the loader on files outside the property's class are not compared",
+                   "a load the property does not speak about - a file written by save read with a named delimiter (which "
+                   "delimiter save writes is not observed), a file read with a delimiter it does not use, any other text read "
+                   "with a named delimiter - is compared with the Lean model and the result recorded only "
+                   "(session:load:outside-the-property-text:*), never a verdict (notes/SECTION13.md 13.2)",
+                   "the field name of the view returned for name= is recorded, not compared; its shape and values are",
+                   "one-character delimiters only; the comments= option of load is never passed",
+                   "structured images with a float64 field in the byte order that is not the machine's are not generated "
+                   "(pewlib writes their bytes unswapped under the machine's byte_order: see notes/EC16.md)",
                    "headers holding a carriage return and element names holding control or white-space characters "
                    "other than a space are not generated (see notes/D16.md: pewlib does not round-trip them)"]
 
